@@ -108,6 +108,7 @@ type HarnessFile struct {
 	Solver  string
 	ExpectBlock map[string]bool
 	ThoroughOnly map[string]bool
+	Overlays [][2]string
 }
 
 var dirRe = regexp.MustCompile(`(?m)^//vx:(\w[\w-]*)\s+(.*)$`)
@@ -157,6 +158,12 @@ func parseHarness(path string) (*HarnessFile, error) {
 				return nil, fmt.Errorf("%s: bad stub %q", path, val)
 			}
 			h.Stubs = append(h.Stubs, [2]string{strings.TrimSpace(parts[0]), strings.TrimSpace(parts[1])})
+		case "overlay": // //vx:overlay <path relative to /repo> <file relative to the harness directory>
+			f := strings.Fields(val)
+			if len(f) != 2 {
+				return nil, fmt.Errorf("%s: bad overlay %q", path, val)
+			}
+			h.Overlays = append(h.Overlays, [2]string{f[0], filepath.Join(filepath.Dir(path), f[1])})
 		case "solver":
 			h.Solver = val
 		case "expect-block":
@@ -177,8 +184,11 @@ func pkgDir(repo, pkgPath string) string {
 }
 
 // load builds SSA for the target package with harness files overlaid.
-func loadProgram(repo string, pkgPath string, files map[string][]byte) (*ssa.Program, *ssa.Package, error) {
+func loadProgram(repo string, pkgPath string, files map[string][]byte, extra map[string][]byte) (*ssa.Program, *ssa.Package, error) {
 	overlay := map[string][]byte{}
+	for rel, src := range extra {
+		overlay[filepath.Join(repo, rel)] = src
+	}
 	for name, src := range files {
 		overlay[filepath.Join(pkgDir(repo, pkgPath), name)] = src
 	}
